@@ -30,6 +30,9 @@ func (t *translator) translateFn(fi *fnInfo, emitDep func(*fnInfo)) {
 	if err != nil {
 		c.fail(fi.decl, "%v", err)
 	}
+	if fi.usesRand {
+		comps = append([]string{"Rand"}, comps...)
+	}
 	if fi.isInit {
 		comps = append([]string{"Globals"}, comps...)
 	}
@@ -72,9 +75,13 @@ func (t *translator) translateFn(fi *fnInfo, emitDep func(*fnInfo)) {
 	if fi.usesGlobals || fi.isInit {
 		prims += " (G_ : Globals)"
 	}
+	loopPrims := prims // loops carry rnd_ in their state
+	if fi.usesRand {
+		prims += " (rnd_ : Rand)"
+	}
 	fi.code = strings.Replace(hdr.String(), "«PRIMS»", prims, 1) + indent(pre.String()+body, "  ") + "\n"
 	for i, a := range fi.aux {
-		fi.aux[i] = strings.ReplaceAll(a, "«LOOPPRIMS»", prims)
+		fi.aux[i] = strings.ReplaceAll(a, "«LOOPPRIMS»", loopPrims)
 		fi.aux[i] = strings.ReplaceAll(fi.aux[i], "«LOOPP»", loopArgs(fi))
 	}
 	fi.code = strings.ReplaceAll(fi.code, "«LOOPP»", loopArgs(fi))
@@ -92,6 +99,9 @@ func (c *fctx) okReturn(results []string) string {
 	var vals []string
 	if c.fi.isInit {
 		vals = append(vals, "G_")
+	}
+	if c.fi.usesRand {
+		vals = append(vals, "rnd_")
 	}
 	for _, p := range c.fi.params {
 		if c.fi.mutated[p] {
@@ -271,10 +281,15 @@ func (c *fctx) assignedOutside(scope ast.Node, nodes ...ast.Node) []*types.Var {
 				}
 				// readers and buffers are advanced / extended by these calls
 				switch c.pkgFunc(s) {
+				case "crypto/rand.Read":
+					add(rootVar(c.info, s.Args[0]))
 				case "io.ReadFull":
 					add(rootVar(c.info, s.Args[0]))
 					add(rootVar(c.info, s.Args[1]))
 				case "encoding/binary.Write", "sort.Slice":
+					add(rootVar(c.info, s.Args[0]))
+				}
+				if m, _ := c.stdMethod(s); m == "crypto/cipher.BlockMode.CryptBlocks" {
 					add(rootVar(c.info, s.Args[0]))
 				}
 				if m, recv := c.stdMethod(s); m == "bytes.Buffer.Write" || m == "bufio.Reader.ReadByte" || m == "bytes.Reader.ReadByte" || m == "hash.Hash.Write" || m == "hash.Hash.Reset" {
@@ -392,7 +407,11 @@ func (c *fctx) jpWrap(scope ast.Node, restCode string, arms func(callK string) s
 		params = append(params, fmt.Sprintf("(%s : %s)", c.name(v), c.vtype(scope, v)))
 		args = append(args, c.name(v))
 	}
-	if len(vars) == 0 {
+	if c.fi.usesRand {
+		params = append([]string{"(rnd_ : Rand)"}, params...)
+		args = append([]string{"rnd_"}, args...)
+	}
+	if len(params) == 0 {
 		params = []string{"(_ : Unit)"}
 		args = []string{"()"}
 	}
@@ -605,7 +624,43 @@ func (c *fctx) typeOfIdent(id *ast.Ident) types.Type {
 	return types.Typ[types.Invalid]
 }
 
+func copyViews(src map[*types.Var]viewInfo) map[*types.Var]viewInfo {
+	m := map[*types.Var]viewInfo{}
+	for k, v := range src {
+		m[k] = v
+	}
+	return m
+}
+
+func (c *fctx) snapshotViews() map[*types.Var]viewInfo {
+	m := map[*types.Var]viewInfo{}
+	for k, v := range c.views {
+		m[k] = v
+	}
+	return m
+}
+
+// after a branching statement only the views that existed before it AND were not re-bound inside survive
+func (c *fctx) restoreViews(before map[*types.Var]viewInfo, node ast.Node) {
+	assigned := map[*types.Var]bool{}
+	for _, v := range c.assignedOutside(node, node) {
+		assigned[v] = true
+	}
+	c.views = map[*types.Var]viewInfo{}
+	for k, v := range before {
+		if !assigned[k] {
+			c.views[k] = v
+		}
+	}
+}
+
 func (c *fctx) ifStmt(s *ast.IfStmt, rest []ast.Stmt, k string) string {
+	viewsBefore := c.snapshotViews()
+	code := c.ifStmt0(s, rest, k, viewsBefore)
+	return code
+}
+
+func (c *fctx) ifStmt0(s *ast.IfStmt, rest []ast.Stmt, k string, viewsBefore map[*types.Var]viewInfo) string {
 	// if err := f(); err != nil { return error }
 	if s.Init != nil && s.Else == nil {
 		if as, ok := s.Init.(*ast.AssignStmt); ok && len(as.Rhs) == 1 {
@@ -642,7 +697,12 @@ func (c *fctx) ifStmt(s *ast.IfStmt, rest []ast.Stmt, k string) string {
 			}
 		}
 	}
+	elseBlock := func(kk string) string {
+		c.views = copyViews(viewsBefore)
+		return c.block(elseList, kk)
+	}
 	thenBlock := func(kk string) string {
+		c.views = copyViews(viewsBefore)
 		if nn != nil {
 			old := c.nonNil[nn]
 			c.nonNil[nn] = true
@@ -654,17 +714,18 @@ func (c *fctx) ifStmt(s *ast.IfStmt, rest []ast.Stmt, k string) string {
 		return pre + "if " + cond + " then (\n" + indent(a, "  ") + ")\nelse (\n" + indent(b, "  ") + ")"
 	}
 	if thenT && elseT {
-		return mk(thenBlock(""), c.block(elseList, ""))
+		return mk(thenBlock(""), elseBlock(""))
 	}
+	c.restoreViews(viewsBefore, s)
 	restCode := c.block(rest, k)
 	if thenT {
-		return mk(thenBlock(""), c.block(elseList, restCode))
+		return mk(thenBlock(""), elseBlock(restCode))
 	}
 	if elseT {
-		return mk(thenBlock(restCode), c.block(elseList, ""))
+		return mk(thenBlock(restCode), elseBlock(""))
 	}
 	return c.jpWrap(s, restCode, func(callK string) string {
-		return mk(thenBlock(callK), c.block(elseList, callK))
+		return mk(thenBlock(callK), elseBlock(callK))
 	}, s)
 }
 
@@ -887,6 +948,10 @@ func (c *fctx) forStmt(s *ast.ForStmt, rest []ast.Stmt, k string) string {
 	name := c.loopName()
 	eparams, enames, _ := c.varDecls(s, env)
 	sparams, snames, stys := c.varDecls(s, state)
+	if c.fi.usesRand {
+		sparams, snames, stys = append([]string{"(rnd_ : Rand)"}, sparams...), append([]string{"rnd_"}, snames...), append([]string{"Rand"}, stys...)
+		state = append([]*types.Var{nil}, state...)
+	}
 	valueRet := c.hasValueReturn(s.Body)
 	retT, wrap := c.loopTypes(stys, valueRet)
 	recCall := name + "«LOOPP» fuel_ " + strings.Join(append(append([]string{}, enames...), snames...), " ")
@@ -1039,6 +1104,10 @@ func (c *fctx) rangeStmt(s *ast.RangeStmt, rest []ast.Stmt, k string) string {
 	name := c.loopName()
 	eparams, enames, _ := c.varDecls(s, env)
 	sparams, snames, stys := c.varDecls(s, state)
+	if c.fi.usesRand {
+		sparams, snames, stys = append([]string{"(rnd_ : Rand)"}, sparams...), append([]string{"rnd_"}, snames...), append([]string{"Rand"}, stys...)
+		state = append([]*types.Var{nil}, state...)
+	}
 	valueRet := c.hasValueReturn(s.Body)
 	retT, wrap := c.loopTypes(stys, valueRet)
 	var et string
